@@ -31,6 +31,8 @@ def explore(graph, prog, max_preempt, workdir, limit=4000, variant="terminology"
         r = sched.run(graph, prog, prefix, workdir, variant, cache)
         r["prefix"], r["preemptions"] = prefix, p
         out.append(r)
+        if r.get("stuck"):
+            break             # threads of this process now wait for each other for good: nothing more can be run here
         if p < max_preempt:
             ch = r["choices"]
             for i in range(len(prefix), len(ch)):
@@ -87,7 +89,7 @@ def replay_behaviours(t, wd):
                "model_err": [b["err"][kk] for kk in sorted(b["err"], key=int)] if isinstance(b["err"], dict) else list(b["err"]),
                "real_err": [{"none": "ok", "RuntimeError:join-before-start": "RuntimeError", "RuntimeError:start-twice": "RuntimeError"}.get(e, e) for e in errs],
                "model_cache": b["cache"],
-               "real_cache": {x: {"current": "fresh", "old": "stale"}.get(v, v) for x, v in r["cache_after"].items()}}
+               "real_cache": {x: {"current": "fresh", "old": "stale", "outdated": "fresh"}.get(v, v) for x, v in r["cache_after"].items()}}
 
 
 def replay(t):
